@@ -111,6 +111,21 @@ class C01(core.PropertyCheck):
         out.append(("validator_kinds_covered", not bad, f"kinds={sorted(kinds)} unmodelled={sorted(UNMODELLED_KINDS)} unknown={bad}"))
         ok = set(specparser.VALIDATORS) == set(specparser.PrimitiveType) and [p.name for p in specparser.PrimitiveType] == PRIMS
         out.append(("validators_table_keys", ok, str([p.name for p in specparser.VALIDATORS])))
+        # the visitor's node stack: hypotheses of visitor_stack_spec monitored on real walks + model/implementation correspondence
+        from impl import c01visit
+        n_docs = 500 if getattr(self, "tier", "quick") == "quick" else 5000
+        try:
+            problems, stats = c01visit.correspondence(n_docs, getattr(self, "seed", 0))
+            self.visit_stats = stats
+            ok = not problems and stats["walks"] >= n_docs // 2 and stats["exit_kinds"].get("skipNode", 0) > 0 and stats["term_events"] > 0
+            out.append((f"visitor node stack: on {stats['walks']} real walks ({stats['nodes']} docutils nodes, {stats['inline_walks']} by the inline visitor) every outcome of "
+                        "dispatch_visit is a translated path of its branch and paired, terms reach definition list items only, and the tree the real "
+                        "attach/term/drop events build equals the Lean model's walk and its stack-free specification",
+                        ok, "; ".join(problems[:3]) if problems else f"too little exercised: {stats}"))
+        except core.Infra:
+            raise
+        except Exception as e:
+            out.append(("visitor node stack correspondence ran", False, f"{type(e).__name__}: {e}"))
         return out
 
     # ------------------------------------------------------------------ generation
